@@ -8,3 +8,23 @@ import "github.com/siglens/siglens/pkg/segment/structs"
 func VerifGetCmi(buf []byte) (*structs.CmiContainer, error) {
 	return getCmi(buf)
 }
+
+// VerifSearchMetadataState reports the state of the lazily loaded search metadata (block summaries /
+// block search info) of a segment: whether the segment is known, whether the metadata is marked as
+// loaded, and the cached block summaries (high, low, record count).
+func VerifSearchMetadataState(segkey string) (known bool, loaded bool, sums [][3]uint64) {
+	smi, ok := GetMicroIndex(segkey)
+	if !ok {
+		return false, false, nil
+	}
+	smi.smiLock.RLock()
+	defer smi.smiLock.RUnlock()
+	for _, s := range smi.BlockSummaries {
+		if s == nil {
+			sums = append(sums, [3]uint64{})
+			continue
+		}
+		sums = append(sums, [3]uint64{s.HighTs, s.LowTs, uint64(s.RecCount)})
+	}
+	return true, smi.loadedSearchMetadata, sums
+}
